@@ -1185,3 +1185,84 @@ def _ordinal(fn, node):
     rets = [x for x in ast.walk(fn) if isinstance(x, ast.Return)]
     rets.sort(key=lambda r: (r.lineno, r.col_offset))
     return rets.index(node) if node in rets else 'end'
+
+
+# ---------------------------------------------------------------------------------------------------------------------
+# A mapping field has no order that belongs to its value: two equal mappings may list their entries differently (the JSON
+# writers sort them, users build them in any order).  Code that defines equality or the hash must not freeze that order.
+EQUALITY_METHODS = ('__eq__', '__ne__', '__hash__', '_hash', '_value_equality_values_', '_value_equality_approximate_values_')
+
+
+def mapping_order_in_equality_rule(ctx, rid, floor=10):
+    repo = ctx.repo
+    ctx.decided.append(f'{rid} equality / hash code consumes the entries of a mapping only through an order-insensitive form (frozenset, set, sorted, dict, a view comparison)')
+    ctx.rule(rid, 'no entry order in equality: in __eq__ / __hash__ / _value_equality_values_ (and the own helpers they call) the items / keys / values view of a mapping is never '
+             'turned into a tuple or list as it comes (directly or through a comprehension): equal mappings built in a different order then compare unequal or hash differently, e.g. '
+             'a value and its JSON round trip (writers sort) or a * b versus b * a', floor=floor, style='EFF')
+    n = 0
+    for ci in sorted(repo.classes.values(), key=lambda c: c.qual):
+        if ci.mod.rel.endswith('_test.py') or '/testing/' in ci.mod.rel:
+            continue
+        fns = [ci.methods[m] for m in EQUALITY_METHODS if m in ci.methods]
+        if not fns:
+            continue
+        helpers = []
+        for fn in fns:
+            for c in ast.walk(fn):
+                if isinstance(c, ast.Call) and isinstance(c.func, ast.Attribute) and isinstance(c.func.value, ast.Name) and c.func.value.id in ('self', 'other') \
+                        and c.func.attr in ci.methods and ci.methods[c.func.attr] not in fns + helpers:
+                    helpers.append(ci.methods[c.func.attr])
+        par = None
+        for fn in fns + helpers:
+            for c in ast.walk(fn):
+                if not (isinstance(c, ast.Call) and isinstance(c.func, ast.Attribute) and c.func.attr in ('items', 'keys', 'values') and not c.args and not c.keywords):
+                    continue
+                if par is None:
+                    par = ci.mod.parents()
+                p = par.get(c)
+                consumer = None
+                if isinstance(p, ast.Call) and c in p.args:
+                    consumer = call_name(p).split('.')[-1]
+                elif isinstance(p, ast.comprehension) and p.iter is c:
+                    comp = par.get(p)
+                    outer = par.get(comp)
+                    if isinstance(comp, ast.ListComp):
+                        consumer = 'list'
+                    if isinstance(comp, (ast.GeneratorExp, ast.ListComp)) and isinstance(outer, ast.Call) and comp in outer.args:
+                        consumer = call_name(outer).split('.')[-1]
+                    if isinstance(comp, (ast.SetComp, ast.DictComp)):
+                        consumer = 'set'
+                n += 1
+                bad = consumer in ('tuple', 'list')
+                ctx.ob(rid, f'{ci.qual}.{fn.name}:{ast.unparse(c)}', not bad, '' if not bad else
+                       f'`{ast.unparse(par.get(par.get(p), p) if isinstance(p, ast.comprehension) else p)[:90]}` freezes the order in which the mapping lists its entries into a value that '
+                       'decides equality / the hash', ci.mod.rel, c.lineno)
+    if n == 0:
+        raise AnalysisError(f'{rid}: no mapping view in equality code found')
+
+
+def frozen_dataclass_eq_hash_rule(ctx, rid, floor=2):
+    """A frozen dataclass that writes its own __eq__ also writes its own __hash__ (the generated one hashes the raw field tuple)."""
+    repo = ctx.repo
+    ctx.decided.append(f'{rid} a frozen dataclass with a hand-written __eq__ has a hand-written __hash__ (the generated hash covers the raw fields, which a coarser equality contradicts)')
+    ctx.rule(rid, 'hand-written equality needs a hand-written hash: @dataclass(frozen=True) generates __hash__ from the tuple of fields; a class that replaces the generated __eq__ '
+             '(to ignore order, to normalise) without defining __hash__ gives equal objects different hashes', floor=floor, style='COH')
+    n = 0
+    for ci in sorted(repo.classes.values(), key=lambda c: c.qual):
+        if ci.mod.rel.endswith('_test.py') or '/testing/' in ci.mod.rel:
+            continue
+        decs = [d for d in ci.node.decorator_list if 'dataclass' in ast.unparse(d)]
+        if not decs or '__eq__' not in ci.methods:
+            continue
+        d = decs[0]
+        kw = {k.arg: k.value for k in d.keywords} if isinstance(d, ast.Call) else {}
+        frozen = isinstance(kw.get('frozen'), ast.Constant) and kw['frozen'].value is True
+        unsafe = isinstance(kw.get('unsafe_hash'), ast.Constant) and kw['unsafe_hash'].value is True
+        if not (frozen or unsafe):
+            continue   # eq=True without frozen sets __hash__ to None: unhashable, which is consistent
+        n += 1
+        explicit = '__hash__' in ci.methods or any(isinstance(s_, ast.Assign) and any(isinstance(t, ast.Name) and t.id == '__hash__' for t in s_.targets) for s_ in ci.node.body)
+        ctx.ob(rid, f'{ci.qual}:__hash__', explicit, '' if explicit else
+               '__eq__ is hand-written but __hash__ is the one dataclass generates from the raw fields: objects this __eq__ calls equal can hash differently', ci.mod.rel, ci.methods['__eq__'].lineno)
+    if n == 0:
+        raise AnalysisError(f'{rid}: no frozen dataclass with its own __eq__ found')
